@@ -98,6 +98,57 @@ def requests(ctx):
     return batches, strs, big + bad
 
 
+def reuse_requests(ctx):
+    """strand tables a caller keeps and uses again: [table, break, uses] (rendering is a query: whatever was asked of
+    the same table object before, the rendering asked last is that of a fresh table, and the table is as it was)"""
+    rng = ctx.rng
+    quick = ctx.tier == "quick"
+    names = ["a", "b*", "+", "&", "long_name-1", "c"]
+    out = []
+    # small scope: every table of up to 3 strands of up to 2 elements over two names, rendered twice
+    pool = [[]] + [[x] for x in "ab"] + [[x, y] for x in "ab" for y in "ab"]
+    for n in (1, 2, 3):
+        tabs = [[]]
+        for _ in range(n):
+            tabs = [t + [s] for t in tabs for s in pool]
+        for t in (tabs if n < 3 or not quick else rng.sample(tabs, 120)):
+            out.append([t, "+", [rng.choice(["list", "join", "retable", "scramble"])]])
+    for _ in range(400 if quick else 5000):
+        brk = rng.choice(["+", "&", "\u2192", "_", "\U0001F9EC"])
+        el = names if rng.random() < 0.7 else ["A", "C", "G", "T"]
+        st = [[rng.choice(el) for _ in range(rng.choice([0, 1, 1, 2, 3, 6]))] for _ in range(rng.choice([0, 1, 2, 2, 3, 4, 9]))]
+        uses = [rng.choice(["list", "list", "join", "retable", "scramble"]) for _ in range(rng.randrange(1, 4))]
+        out.append([st, brk, uses])
+    # many strands (the accumulated sequence is long)
+    out.append([[["d%d" % k] for k in range(300)], "+", ["list"]])
+    return out
+
+
+def reuse_witness(args):
+    """failing input from a table-reuse request [table, break, uses] on which the direct statement fails (shrunk)"""
+    def bad(a):
+        r = run_impl([("strand_table_reuse_fault", a)], jobs=1)[0]
+        return bool(r) or isinstance(r, Err)
+
+    def smaller(a):
+        st, brk, uses = a
+        for k in range(len(uses)):
+            yield [st, brk, uses[:k] + uses[k + 1:]]
+        for k in range(len(st)):
+            yield [st[:k] + st[k + 1:], brk, uses]
+        for k, s_ in enumerate(st):
+            for j in range(len(s_) if len(s_) > 1 else 0):          # keep non-empty strands non-empty
+                yield [st[:k] + [s_[:j] + s_[j + 1:]] + st[k + 1:], brk, uses]
+    if not bad(args):
+        return None
+    st, brk, uses = shrink(args, bad, smaller, budget=40)
+    r = run_impl([("strand_table_reuse_fault", [st, brk, uses])], jobs=1)[0]
+    return {"key": {"strand_table_reuse": [st, brk, uses]}, "input": {"strand_table_reuse": [st, brk, uses]},
+            "what": f"strand table kept by the caller, uses {uses + ['list']!r} with strand_break={brk!r}: {r}",
+            "snippet": "from dsdobjects.complex_utils import strand_table_to_sequence as f; "
+                       f"t = {st!r}; print(f(t, strand_break={brk!r}), t, f(t, strand_break={brk!r}))"}
+
+
 def inverse_requests(ctx, tables):
     """pair_table_to_dot_bracket on tables the implementation produced, plus damaged ones"""
     rng = ctx.rng
@@ -129,6 +180,24 @@ def run(ctx):
         sub_ = inv_[: (1500 if ctx.tier == "quick" else 20000)]
         diffs += correspond(ctx, "pair_table_to_dot_bracket/one-shot-iterator", sub_,
                             impl_reqs=[("pair_table_to_dot_bracket_iter", r[1]) for r in sub_])
+    # strand tables the caller keeps: one table object used several times (model: the rendering of a fresh table), and
+    # the direct statement that no use changes the table
+    reuse_bad = []
+    if runner.ok:
+        ru = reuse_requests(ctx)
+        diffs += correspond(ctx, "strand_table_to_sequence/same-table-again", [("strand_table_to_sequence", [a[0], a[1]]) for a in ru],
+                            impl_reqs=[("strand_table_to_sequence_reuse", a) for a in ru])
+        faulty = [a for a, r in zip(ru, run_impl([("strand_table_reuse_fault", a) for a in ru])) if r or isinstance(r, Err)]
+        ctx.cov["correspondence"]["strand_table/kept-table-unchanged(impl)"] = {"cases": len(ru), "failures": len(faulty)}
+        faulty.sort(key=lambda a: (not all(a[0]), len(json.dumps(a))))      # tables without empty strands first
+        for a in faulty[:3]:
+            w = reuse_witness(a)
+            if w:
+                reuse_bad.append(w)
+        if reuse_bad and res["ok"] and not diffs:
+            for f in reuse_bad[:10]:
+                ctx.violation("counterexample", f)
+            return
     # list structures whose members are not single characters ('' / '.x' / '..'): never a legal position, whatever form
     # `ignore` is given in (direct statement on the implementation: the model speaks about character lists only)
     if runner.ok:
@@ -200,7 +269,15 @@ def run(ctx):
                             "what": f"pair_table_to_dot_bracket gives {b_!r} for an iterator over the rows and {a_!r} for the list of rows",
                             "snippet": f"from dsdobjects.complex_utils import pair_table_to_dot_bracket as f; t = {d[1][1][0]!r}; "
                                        "print(f(t), f(iter(t)))"})
-        pre = pre + stf
+        # renderings of a strand table that disagree (or change the table they were given): the direct statement on a kept table
+        rw = list(reuse_bad)
+        for d in [x for x in diffs if x[1][0] in ("strand_table_to_sequence", "strand_table_to_sequence_reuse")][:6]:
+            a_ = d[1][1] if d[1][0] == "strand_table_to_sequence_reuse" else [d[1][1][0], d[1][1][1], ["list"]]
+            if not rw:
+                w = reuse_witness(a_)
+                if w:
+                    rw.append(w)
+        pre = pre + stf + rw
         # then the small-scope enumerator and the random stream against the oracle
         cases += [{"s": s, "brk": "+"} for s in strs] + [{"s": s, "brk": "+"} for s in rnd[:2000]]
         out = run_oracle("c06.py", {"cases": cases})
@@ -223,6 +300,14 @@ def replay(data):
         r = run_impl([("make_pair_table_members", inp["members"])], jobs=1)[0]
         print(r)
         return 0 if (isinstance(r, Err) and r.kind == "SecondaryStructureError") else 1
+    if isinstance(inp, dict) and "strand_table_reuse" in inp:
+        r = run_impl([("strand_table_reuse_fault", inp["strand_table_reuse"])], jobs=1)[0]
+        print(r)
+        return 1 if (r or isinstance(r, Err)) else 0
+    if isinstance(inp, dict) and "history" in inp:
+        r = run_impl([("c03_fresh_compare", inp["history"])], jobs=1)[0]
+        print(r)
+        return 1 if r else 0
     if isinstance(inp, dict) and "iter_table" in inp:
         a_, b_ = run_impl([("pair_table_to_dot_bracket", inp["iter_table"]), ("pair_table_to_dot_bracket_iter", inp["iter_table"])], jobs=1)
         print(a_, b_)
